@@ -25,6 +25,8 @@ import (
 //   st.names  <kind> <blocks> <start> <end> <matchers> <without>            LabelNames  -> ok <name ranks> | <error enum>
 //   st.values <kind> <blocks> <start> <end> <matchers> <without> <label>    LabelValues -> ok <value ranks> | invalid | <error enum>
 //
+//   st.ext <blocks> <new ext> <start> <end> <matchers> <without> <label>   a fresh TSDBStore answers Series, LabelNames and
+//                              LabelValues, its external labels are replaced (SetExtLset) and it answers again
 //   px.series <blocks> <mint> <maxt> <matchers> <without> <skip>       the same three calls through a ProxyStore (no selector
 //   px.names  <blocks> <start> <end> <matchers> <without>              labels, partial response ABORT) in front of the TSDBStore of
 //   px.values <blocks> <start> <end> <matchers> <without> <label>      the first block and the BucketStore of all blocks
@@ -90,6 +92,131 @@ func (r *stReq) labelValues(label string) ([]string, error, bool) {
 			return nil, err, true
 		}
 		return resp.Values, nil, true
+	}
+}
+
+// ---- external labels replaced at runtime (TSDBStore.SetExtLset: receive does it on a hashring reload)
+
+// execStExt: st.ext <blocks> <new ext> <mint> <maxt> <matchers> <without> <label>
+//
+//	a FRESH TSDBStore over the first block, created with the block's external labels, answers Series (labels only),
+//	LabelNames and LabelValues(label); then SetExtLset(new ext) and the same three calls again
+//	-> `<series> # <names> # <values> | <series> # <names> # <values>`
+//
+// oracle: the inclusion (C07) and the label completion (C08) after the update, against the CURRENT external labels.
+func execStExt(c *hlib.Ctx, tok []string) string {
+	if len(tok) != 8 {
+		return "bad-op"
+	}
+	r, ok := parseStReq([]string{tok[0], "tsdb", tok[1], tok[3], tok[4], tok[5], tok[6]})
+	newExt, err := parseLabels(tok[2])
+	ln, err2 := strconv.Atoi(tok[7])
+	if !ok || err != nil || err2 != nil || ln < 1 || ln >= len(nameTab) {
+		return "bad-op"
+	}
+	label := nameTab[ln]
+	st := store.NewTSDBStore(log.NewNopLogger(), blockQueryable{r.b.opened[0]}, component.Rule, promLabels(r.b.blocks[0].ext))
+	ctx := context.Background()
+	drop := nameSet(r.without)
+	round := func(ext labels.Labels, tag string) string {
+		srv := &seriesServer{ctx: ctx}
+		serr := st.Series(&storepb.SeriesRequest{MinTime: r.mint, MaxTime: r.maxt, Matchers: r.sms, WithoutReplicaLabels: r.without, SkipChunks: true}, srv)
+		sAns := ""
+		if serr != nil {
+			sAns = errEnum(serr)
+		} else {
+			sAns = "ok " + canonSeries(srv.frames, true)
+		}
+		nresp, nerr := st.LabelNames(ctx, &storepb.LabelNamesRequest{Start: r.mint, End: r.maxt, Matchers: r.sms, WithoutReplicaLabels: r.without})
+		nAns := ""
+		var names []string
+		if nerr != nil {
+			nAns = errEnum(nerr)
+		} else {
+			names = nresp.Names
+			nAns = "ok " + showRanks(nameTab, names)
+		}
+		vresp, verr := st.LabelValues(ctx, &storepb.LabelValuesRequest{Label: label, Start: r.mint, End: r.maxt, Matchers: r.sms, WithoutReplicaLabels: r.without})
+		vAns := ""
+		var vals []string
+		if verr != nil {
+			vAns = errEnum(verr)
+		} else {
+			vals = vresp.Values
+			vAns = "ok " + showRanks(valueTab, vals)
+		}
+		if serr == nil {
+			hn, hv := nameSet(names), nameSet(vals)
+			for _, f := range srv.frames {
+				for _, l := range f.lset {
+					if _, ok := hn[l.Name]; !ok && nerr == nil {
+						c.Violation("name-missing", fmt.Sprintf("%s: series %s is returned by Series, LabelNames answers %v", tag, f.lset, names))
+					}
+					if _, d := drop[l.Name]; d {
+						c.Violation("replica-label-present", fmt.Sprintf("%s: series %s carries dropped label %s", tag, f.lset, l.Name))
+					}
+				}
+				if v := f.lset.Get(label); v != "" && verr == nil {
+					if _, ok := hv[v]; !ok {
+						c.Violation("value-missing", fmt.Sprintf("%s: series %s is returned by Series, LabelValues(%s) answers %v", tag, f.lset, label, vals))
+					}
+				}
+				// the current external labels (not dropped) are on every series
+				ext.Range(func(l labels.Label) {
+					if _, d := drop[l.Name]; !d && f.lset.Get(l.Name) != l.Value {
+						c.Violation("ext-label-missing", fmt.Sprintf("%s: series %s does not carry the current external label %s=%q", tag, f.lset, l.Name, l.Value))
+					}
+				})
+			}
+		}
+		return sAns + " # " + nAns + " # " + vAns
+	}
+	a := round(promLabels(r.b.blocks[0].ext), "before SetExtLset")
+	st.SetExtLset(promLabels(newExt))
+	b := round(promLabels(newExt), "after SetExtLset")
+	return a + " | " + b
+}
+
+// genStExt: external labels replaced by a set with added / removed / renamed names, or with other values only.
+func genStExt(c *hlib.Ctx, g *storeGen, blocks []specBlock, n int) {
+	r := c.R
+	tb := showBlocks(blocks[:1])
+	for i := 0; i < n; i++ {
+		old := blocks[0].ext
+		var nw []specLabel
+		kind := ""
+		switch r.Intn(5) {
+		case 0:
+			kind = "added-name"
+			nw = append([]specLabel(nil), old...)
+			nw = append(nw, genLabelSet(r, []int{3, 8, 10, 12}, 1)...)
+		case 1:
+			kind = "removed-name"
+			if len(old) > 0 {
+				nw = append([]specLabel(nil), old[1:]...)
+			}
+		case 2:
+			kind = "renamed"
+			nw = genLabelSet(r, []int{3, 6, 8, 10, 11}, r.Range(1, 3))
+		case 3:
+			kind = "values-only"
+			for _, l := range old {
+				nw = append(nw, specLabel{l.n, r.Range(1, len(valueTab)-1)})
+			}
+		default:
+			kind = "random"
+			nw = genLabelSet(r, g.extPool, r.Range(0, 3))
+		}
+		sort.Slice(nw, func(i, j int) bool { return nw[i].n < nw[j].n })
+		ms := g.genMatchers(blocks[:1])
+		mint, maxt := genRange(r, blocks[:1])
+		if r.Bool() {
+			mint, maxt = -10, 100000
+		}
+		without := genNames(r, []int{5, 6, 9, 11, 3, 8}, 2)
+		ln := pickInt(r, 1, 3, 5, 6, 8, 9, 10, 11, 12)
+		c.Count("ext-update:" + kind)
+		c.Do(fmt.Sprintf("st.ext %s %s %d %d %s %s %d", tb, showLabels(nw), mint, maxt, showMatchers(ms), without, ln), true)
 	}
 }
 
@@ -243,6 +370,8 @@ func execC07(c *hlib.Ctx, tok []string) string {
 	switch tok[0] {
 	case "px.series", "px.names", "px.values":
 		return execProxy(c, tok)
+	case "st.ext":
+		return execStExt(c, tok)
 	case "st.names":
 		if len(tok) != 7 {
 			return "bad-op"
@@ -353,6 +482,7 @@ func genC07(c *hlib.Ctx) {
 		}
 		blocks := g.genBlocks(nb, 10, minExt)
 		tb := showBlocks(blocks)
+		genStExt(c, g, blocks, c.N(8, 16))
 		for q := 0; q < nReq; q++ {
 			ms := g.genMatchers(blocks)
 			if r.Chance(1, 4) {
